@@ -137,7 +137,8 @@ def run(ctx: Ctx):
                 check(f'cpp_gen.Function.as_def[{tag}]', f'{CG}.Function.as_def', mk_fn, 'as_def', 'function_def')
 
     # ---- Constructor / Destructor --------------------------------------------------------------------------------
-    for (n, nm) in ((0, 0), (1, 1), (2, 2), (0, 2)):
+    for (n, nm) in (((0, 0), (1, 1), (2, 2), (0, 2)) if ctx.tier == 'quick' else
+                    ((0, 0), (1, 1), (2, 2), (0, 2), (3, 3), (1, 3), (3, 0))):
         for _once in (0,):
             tag = f'{n} params,{nm} member inits'
 
@@ -184,7 +185,7 @@ def run(ctx: Ctx):
                 lambda p, mk_s=mk_s: ((lambda t: ([t[0]], [t[0], t[1]]))(mk_s(p))), witness=witness,
                 text='str(struct/class) == keyword name { contents };')
 
-    for n in (0, 1, 2):
+    for n in ((0, 1, 2) if ctx.tier == 'quick' else (0, 1, 2, 3, 4)):
         def mk_n(p, n=n):
             tb, lines = content_tb(p)
             ids = [ident(p, f'ns_id{i}') for i in range(n)]
